@@ -14,7 +14,7 @@ import (
 // noReplay removes history-dependent items so that states merge on the persisted data only.
 func noReplay(w *worlds.World) func(depth int, prefix []int, item int) bool {
 	w.UsesReplay = false
-	return func(depth int, prefix []int, item int) bool { return w.Menu[item].Replay == 0 }
+	return func(depth int, prefix []int, item int) bool { return w.Menu[item].Replay == 0 && !w.Menu[item].StealSig }
 }
 
 type json2 = json.RawMessage
